@@ -74,7 +74,10 @@ def subset_case(draw, n_inputs=4):
             body_e = M.Bin(draw(st.sampled_from(["==", "<", ">"])), expr(cty, 2), expr(cty, 1), ty=INT)
             ret = INT
             if draw(st.booleans()) and INT in names:
-                body_e = M.Bin(draw(st.sampled_from(["+", "*", "-"])), body_e, expr(INT, 1), ty=INT)
+                # the int operand may come before or after the comparison (value types then run int, float, int)
+                other = expr(INT, 1)
+                pair = (body_e, other) if draw(st.booleans()) else (other, body_e)
+                body_e = M.Bin(draw(st.sampled_from(["+", "*", "-"])), pair[0], pair[1], ty=INT)
         # helpers that are not exported may sit between the exported functions (never called: calls are outside the subset)
         exported = (k == nf - 1 and not entries) or draw(st.integers(0, 9)) < 7
         f = M.Func("w%d" % k, params, ret, M.Block([M.Return(body_e)]), exported)
@@ -90,7 +93,8 @@ def nearmiss_case(draw, n_inputs=3):
     """one construct outside the subset added to an in-subset function"""
     kind = draw(st.sampled_from(["local", "assign-param", "branch", "loop", "call", "mixed-cast", "mod", "le", "ge", "ne",
                                  "and", "or", "void", "float-const", "global", "affix", "two-returns", "unused-param-types",
-                                 "return-int-as-float", "return-float-as-int", "huge-constant", "huge-constant-uint"]))
+                                 "return-int-as-float", "return-float-as-int", "huge-constant", "huge-constant-uint",
+                                 "huge-constant-compare", "huge-constant-divide", "ne-float", "le-float", "ge-float", "mod-float"]))
     a, b = M.Var("a", INT), M.Var("b", INT)
     x = M.Var("x", FLOAT)
     params = [(INT, "a"), (INT, "b"), (FLOAT, "x")]
@@ -136,6 +140,16 @@ def nearmiss_case(draw, n_inputs=3):
             a = M.Var("a", UINT)
             ret = UINT
         body = [M.Return(M.Bin("+", a, M.Lit(v, INT, str(v)), ty=ret))]
+    elif kind in ("huge-constant-compare", "huge-constant-divide"):
+        v = draw(st.sampled_from([2147483648, 3000000000, 4294967295]))
+        k = M.Lit(v, INT, str(v))
+        op = draw(st.sampled_from(["<", ">", "=="])) if kind.endswith("compare") else "/"
+        body = [M.Return(M.Bin(op, a, k, ty=INT) if draw(st.booleans()) else M.Bin(op, k, a, ty=INT))]
+    elif kind in ("ne-float", "le-float", "ge-float", "mod-float"):
+        op = {"ne-float": "!=", "le-float": "<=", "ge-float": ">=", "mod-float": "%"}[kind]
+        body = [M.Return(M.Bin(op, x, M.Bin("*", x, x, ty=FLOAT), ty=INT))]
+        if kind == "mod-float":
+            ret = FLOAT
     elif kind == "global":
         globs = [(INT, "g")]
         body = [M.Return(M.Bin("+", a, M.Var("g", INT), ty=INT))]
